@@ -364,3 +364,14 @@ fn calc_baseline_and_numbits(
         ((index_shifted * slice_width), num_bits as u8)
     }
 }
+
+/// Read-only views for the verification harness (no logic).
+#[cfg(feature = "verif_hooks")]
+impl FSETable {
+    pub fn verif_max_symbol(&self) -> u8 {
+        self.max_symbol
+    }
+    pub fn verif_symbol_counter(&self) -> &[u32] {
+        &self.symbol_counter
+    }
+}
